@@ -218,6 +218,48 @@ func ruleJS(c *Ctx) {
 			}
 		}
 	}
+	// JS-COND: an optional attribute is written whenever it is non-empty
+	c.Rule("JS-COND", "an optional attribute is written on every path on which it is known to be non-empty (emptiness is the only reason to leave it out)", 3)
+	condBad := map[string]string{}
+	condSeen := map[string]bool{}
+	for _, p := range paths {
+		if p.Ret == nil || !isNilConst(errOperand(p.Ret)) {
+			continue
+		}
+		evs, _ := jsEventsOnPath(p)
+		if len(evs) == 0 || evs[0].Kind != "begin" {
+			continue
+		}
+		wrote := map[string]bool{}
+		for _, e := range evs {
+			if e.Kind == "name" {
+				wrote[e.Name] = true
+			}
+		}
+		for k, m := range p.State.ne {
+			i := strings.LastIndex(k, "->Object)->")
+			if i < 0 || !m["s:"] {
+				continue
+			}
+			field := strings.TrimSuffix(k[i+len("->Object)->"):], ")")
+			tag, known := tags[field]
+			if !known {
+				continue
+			}
+			condSeen[field] = true
+			if !wrote[tag] {
+				condBad[field] = fmt.Sprintf("there is a path on which %s is non-empty and yet %q is not written", field, tag)
+			}
+		}
+	}
+	var cf []string
+	for f := range condSeen {
+		cf = append(cf, f)
+	}
+	sort.Strings(cf)
+	for _, f := range cf {
+		c.Check(condBad[f] == "", fnKey(mfn)+"/when-set["+f+"]", P.pos(mfn.Pos()), "written on every path where it is non-empty", condBad[f])
+	}
 	c.Rule("JS-BAL", "", 0)
 	c.Check(balanced && nObj > 0, fnKey(mfn)+"/object-form", P.pos(mfn.Pos()), fmt.Sprintf("all %d success paths of the object form are BeginObject (name value)* EndObject", nObj), balWhy)
 	c.Rule("JS-KEY", "", 0)
